@@ -65,6 +65,11 @@ CLAIMED.update({
          "note": "csv dialect parsing itself is external ([A] csv.reader); CsvDataReader.next / LineCounter loops are covered by the bounded files only; xlsx/s3/pandas readers not covered.",
          "tech": BT},
 })
+CLAIMED.update({
+ "C16": {"cat": "other", "text": "Proved: Print._decide_match sends exactly one entry per execution iff the onchange/once gates are open and records it (so print.once holds for every printer, named ones included); PrintParser._ref_from_dict returns the tracked value / stack item / length whatever it is (0 and '' included). Bounded: every template of 1..3 items over 17 item kinds is rendered through the real Lark grammar/transformer and compared with the statement's render function; onmatch/once gating; empty output.",
+         "note": "Text fidelity through Lark's Earley tokenisation is BOUNDED only. One known finding: references closer than two characters lose/reorder the characters between them.",
+         "tech": BT},
+})
 NA_REASON = {}
 m = {
  "version": 1, "setup_cmd": "./setup.sh",
